@@ -12,6 +12,14 @@ def fuzz(name, target, fuzztime, workers=8, timeout=None):
     return {"name": name, "kind": "fuzz", "target": target, "thorough": t}
 
 PROPS = {
+    "C01": {
+        "level": "exploration",
+        "jobs": [
+            rapid("regress", "^TestC01Regress$", {"checks": 1, "timeout": 300}, {"checks": 1, "timeout": 300}),
+            rapid("ledger", "^TestC01$", {"checks": 40, "steps": 30, "shards": 8, "timeout": 900, "shrinktime": "30s"},
+                  {"checks": 700, "steps": 60, "shards": 14, "timeout": 5000, "shrinktime": "120s"}),
+        ],
+    },
     "C11": {
         "level": "exploration",
         "jobs": [
